@@ -75,6 +75,8 @@ type c19Case struct {
 	Init   []c19Step `json:"init,omitempty"`
 	Reqs   []c19Step `json:"reqs,omitempty"`
 	Rounds int       `json:"rounds,omitempty"`
+	// session
+	Field string `json:"field,omitempty"` // a saved option without URL parameter
 	Note   string    `json:"note,omitempty"`
 }
 
@@ -612,6 +614,8 @@ func runC19(c *Ctx) {
 			e.runFault(cs)
 		case "conc":
 			e.runConc(cs)
+		case "session":
+			e.runSession(cs)
 		}
 		return
 	}
@@ -621,6 +625,10 @@ func runC19(c *Ctx) {
 	e.traceAndFaults(r)
 	// (iv): concurrent requests
 	e.concurrent(r)
+	// saved options the URL cannot carry (separate stream)
+	if terr == nil {
+		e.sessions()
+	}
 	// (i): sequences
 	if terr == nil {
 		n := 150 * c.Scale
